@@ -249,6 +249,59 @@ func enumerate() []cand {
 			}
 		}
 	}
+	// SC "overlap chains": three or four named fields in a row whose node types overlap (A, B
+	// and the category Expr = {A, B}), so that later fields are fetched relative to earlier
+	// ones (Child(..).Next(..).Next(..)). The first field (first two for four fields) is
+	// required; each remaining field is required, optional or a possibly empty list: only
+	// fields that no later field overlaps may be optional/lists (the others are rejected), and
+	// a later field must never be anchored on such a field. All presence combinations occur
+	// among the inputs (length <= 5 for four fields).
+	scNames := []string{"f=", "g=", "h=", "k="}
+	scEarly := map[string]bool{
+		"f=E g=X? h=Y":      true, // category head, optional tail in the middle
+		"f=E g=X* h=Y":      true, // ... list tail in the middle
+		"f=X g=Y h=X? k=Y":  true, // no category: two interleaved chains, optional tail
+		"f=Y g=X h=Y* k=X?": true, // list tail followed by an optional tail of the other chain
+	}
+	for _, n := range []int{3, 4} {
+		atoms := []string{"X", "Y", "E"}
+		if n == 4 {
+			atoms = []string{"X", "Y"}
+		}
+		total := 1
+		for i := 0; i < n; i++ {
+			total *= len(atoms)
+		}
+		quants := []string{"", "?", "*"}
+		for code := 0; code < total; code++ {
+			for _, qa := range quants {
+				for _, qb := range quants {
+					var ps []string
+					x := code
+					for i := 0; i < n; i++ {
+						q := ""
+						switch {
+						case i == n-2:
+							q = qa
+						case i == n-1:
+							q = qb
+						}
+						ps = append(ps, part{scNames[i], atoms[x%len(atoms)], q}.String())
+						x /= len(atoms)
+					}
+					body := strings.Join(ps, " ")
+					cd := cand{Shape: "SC", Rules: "S -> @ROOT@ :\n    " + body + " ;\n"}
+					if scEarly[body] {
+						cd.Early = 1
+					}
+					if n == 4 {
+						cd.MaxLen = 5
+					}
+					out = append(out, cd)
+				}
+			}
+		}
+	}
 	return out
 }
 
